@@ -246,6 +246,54 @@ def seed_numpy(seed):
     np.random.seed(seed % (1 << 32))
 
 
+def _untemper(y):
+    """Inverse of the MT19937 output tempering."""
+    y ^= y >> 18
+    y ^= (y << 15) & 0xEFC60000
+    t = y
+    for _ in range(5):
+        t = y ^ ((t << 7) & 0x9D2C5680)
+    y = t & 0xFFFFFFFF
+    t = y
+    for _ in range(3):
+        t = y ^ (t >> 11)
+    return t & 0xFFFFFFFF
+
+
+def force_draws(value, n=6):
+    """Fault injection at the generator: the next ``n`` doubles drawn from
+    every legacy RandomState alive in this interpreter (numpy's global one,
+    and the private copies that unpickled models carry) are the largest
+    double below 1 (value='top') or exactly 0.0 (value='zero') - legal draws
+    that the generator effectively never produces on its own.  The library's
+    binding of ``np.random.rand`` stays untouched: only the state is edited."""
+    import gc
+    u = _untemper(0xFFFFFFFF if value == 'top' else 0)
+    edited = []
+    for rs in [o for o in gc.get_objects()
+               if isinstance(o, np.random.RandomState)]:
+        st = rs.get_state()
+        if st[0] != 'MT19937':
+            continue
+        while st[2] > 624 - 2 * n:      # refill, then edit the fresh block
+            rs.random_sample()
+            st = rs.get_state()
+        key, pos = st[1].copy(), st[2]
+        edited.append((rs, st[1].copy(), pos))
+        key[pos:pos + 2 * n] = u
+        rs.set_state(('MT19937', key, pos, st[3], st[4]))
+    return edited
+
+
+def unforce_draws(edited):
+    """Forced draws that were not consumed are taken back (the generator
+    goes on from where it is, on its own numbers)."""
+    for rs, key, pos0 in edited:
+        st = rs.get_state()
+        if st[2] >= pos0:               # still inside the edited block
+            rs.set_state(('MT19937', key, st[2], st[3], st[4]))
+
+
 def numpy_pos():
     st = np.random.get_state()
     return int(st[2]), hash_state(st[1])
